@@ -4,7 +4,7 @@ ENTRY = dict(
          "random cut points), andybalholm/brotli (quality 0/5/9/11, lgwin 10..22, Flush at cut points) and klauspost zstd (3 levels, one "
          "frame per piece = generated chunkings) and handed to decompressCert through hooks/verif_c21.go; variations: valid, declared "
          "length +-1, extra decompressed bytes, unadvertised / unknown algorithm, truncated and bit-flipped streams, declared length "
-         "above the 256 KiB limit; fixed corpus of the F-21a/F-21b/F-33 witnesses first; CompressedCertificate marshal/unmarshal on "
+         "above the 256 KiB limit; fixed corpus first (F-21a/F-21b/F-33 witnesses, messages of 70/130/200 KiB and exactly 256 KiB, limit+1); clients reconfigured through the public API between two BuildHandshakeState calls, 'advertised' read back from the final ClientHello bytes; CompressedCertificate marshal/unmarshal on "
          "random fields. The chunking given to the model is the one the same decoder delivers when replayed with the code's buffer "
          "schedule. Distinct by (encoder, size class, flush count, variation); non-trivial when the decoder delivered more than one "
          "chunk or the message was refused.",
